@@ -35,8 +35,9 @@ Definition snapshot := list (Z * triple).       (* every transform: position, ro
    after ONew: every vector-valued property of the new transform is a NEW object - not the
    argument object it was built from, not an object that another (or the same) transform holds
    (the constructor builds Vec2 / Vec3 instances from its arguments; defaults are not shared);
-   after OSet of a vector: a read returns the very object that was assigned;
-   otherwise true. *)
+   otherwise true: whether a setter stores the assigned object itself or a fresh equal
+   vector is left open (what the property fixes is that the notification carries the
+   object a read returns, see k_same). *)
 Record obs := { o_calls : list call; o_snap : snapshot; o_id : bool }.
 
 Record c20_case := {
@@ -157,8 +158,7 @@ Definition step0 (ms : list (Z * (bool * bool * bool))) (s : state) (o : op) (ob
       end
   end.
 
-(* identities: __init__ stores Vec(position...) etc., i.e. new objects; the setters store the
-   assigned object itself *)
+(* identities: __init__ stores Vec(position...) etc., i.e. new objects *)
 Definition step (ms : list (Z * (bool * bool * bool))) (s : state) (o : op) (ob : obs) : option state :=
   if o_id ob then step0 ms s o ob else None.
 
@@ -217,8 +217,7 @@ Definition spec_step0 (ms : list (Z * (bool * bool * bool))) (s : sstate) (o : o
       end
   end.
 
-(* ... and construction shares no object with the arguments or with another transform,
-   while an assigned vector is stored as the object it is *)
+(* ... and construction shares no object with the arguments or with another transform *)
 Definition spec_step (ms : list (Z * (bool * bool * bool))) (s : sstate) (o : op) (ob : obs) : option sstate :=
   if o_id ob then spec_step0 ms s o ob else None.
 
